@@ -168,7 +168,6 @@ type ctxObj struct {
 func (in *Interp) ctxIface(c *ctxObj) Iface { return Iface{T: ntCtx, V: Native{c}} }
 
 func (in *Interp) ctxErr(c *ctxObj) Value {
-	in.visible("ctx")
 	for x := c; x != nil; x = x.parent {
 		if x.canceled {
 			return in.globalVal("context", "Canceled")
